@@ -172,8 +172,35 @@ def make_case(ctx, g):
     flags = set()
     b = DocBuilder(g, w, repeat_id=0.6, malformed=0.0, anon=0.3, multi=0.1)
     d, scopes = b.random_document(n_records=g.rng.randint(2, 9))
-    for c in all_containers(w, [d]) if g.chance(0.5) else [d]:
+    targets = all_containers(w, [d]) if g.chance(0.5) else [d]
+    for c in targets:
         check_unified(ctx, w, c, fails, flags)
+    if g.chance(0.4):
+        # history: records extended *in place* after a first unified(), then unified() again (the answer must follow the
+        # current content, not an earlier call)
+        changed = False
+        for c in all_containers(w, [d]):
+            recs = w.conts[c].records
+            for i, r in enumerate(recs):
+                if r.identifier is None or not g.chance(0.5):
+                    continue
+                h = w.rec_at(c, i)
+                k = g.rng.random()
+                if k < 0.5:
+                    w.add_attrs(h, b.other_attrs(c, n=1) or [("prov:label", "added later")])
+                elif k < 0.75 or not FORMALS[r.get_type().localpart]:
+                    w.add_type(h, g.value(None, ["qn", "str", "int"]))
+                else:
+                    # a formal attribute given later: may now conflict with a sibling of the same identifier
+                    kind = r.get_type().localpart
+                    f = g.choice(FORMALS[kind])
+                    v = b.time() if f in TIME_ATTRS else b.ref(c)
+                    w.add_attrs(h, [("prov:" + f, v)])
+                changed = True
+        if changed:
+            flags.add("in-place-change-between-unified")
+            for c in targets:
+                check_unified(ctx, w, c, fails, flags)
     w.obs(d)
     ctx.evaluations += 1
     for f in flags:
